@@ -523,6 +523,48 @@ class LoggingShim(object):
         return getattr(logging, k)
 
 
+class FunctoolsShim(object):
+    """functools with an lru_cache that also accepts symbolic (unhashable) arguments: proxies
+    are keyed by identity, so a cached *mutable* result is shared exactly as with the real
+    lru_cache whenever the same argument object comes again"""
+
+    def __getattr__(self, k):
+        import functools
+
+        return getattr(functools, k)
+
+    @staticmethod
+    def lru_cache(maxsize=128, typed=False):
+        def deco(fn):
+            cache = {}
+
+            def key_of(a, k):
+                def one(x):
+                    try:
+                        hash(x)
+                        return x
+                    except TypeError:
+                        return ("id", id(x))
+                return (tuple(one(x) for x in a), tuple(sorted((n, one(v)) for n, v in k.items())))
+
+            def wrapper(*a, **k):
+                kk = key_of(a, k)
+                if kk not in cache:
+                    cache[kk] = (fn(*a, **k), a, k)
+                return cache[kk][0]
+
+            wrapper.cache_clear = cache.clear
+            wrapper.__wrapped__ = fn
+            return wrapper
+
+        if callable(maxsize):  # used as @lru_cache without parentheses
+            f, maxsize = maxsize, 128
+            return deco(f)
+        return deco
+
+    cache = lru_cache.__func__(None) if False else None
+
+
 class ReShim(object):
     IGNORECASE = _re.IGNORECASE
     I = _re.I
@@ -708,7 +750,7 @@ def load_lasio(extra_shims=None, repo=None):
     from . import symnp
 
     repo = repo or REPO
-    shims = {"re": ReShim, "logging": LoggingShim(), "numpy": symnp.NP}
+    shims = {"re": ReShim, "logging": LoggingShim(), "numpy": symnp.NP, "functools": FunctoolsShim()}
     if extra_shims:
         shims.update(extra_shims)
     pkg = {}
